@@ -2,7 +2,7 @@
 # runs the repository's pinned baseline (guard OFF) and compares with BASELINE.json stable_pass
 unset PYG_BASE_VERIF
 out=$(mktemp /dev/shm/junit.XXXXXX.xml)
-(cd /repo && /venv/bin/python -m pytest -ra -q -p no:cacheprovider --timeout=900 --continue-on-collection-errors --junitxml=$out >/dev/null 2>&1)
+(cd "${PYG_REPO:-/repo}" && PYTHONPATH="${PYG_REPO:-/repo}/src" /venv/bin/python -m pytest -ra -q -p no:cacheprovider --timeout=900 --continue-on-collection-errors --junitxml=$out >/dev/null 2>&1)
 /venv/bin/python - "$out" <<'PY'
 import sys, json, xml.etree.ElementTree as ET
 base = set(json.load(open('/root/.vp/BASELINE.json'))['stable_pass'])
